@@ -701,7 +701,7 @@ check_blocks(const ProjDataInfoGenericNoArcCorr& p, const json& c)
               // outer of the two crystals (ProjDataInfoGeneric::get_LOR).  The round trip therefore reports a miss for most bins
               // and occasionally a bin two tangential positions away.  Excluded by construction for blocks/generic data;
               // the outcome classes are still counted.
-              if (exclusions_on("F4"))
+              if (exclusions_on("F4") && exclusions_on("F4a"))
                 {
                   const Bin nb2 = p.get_bin(lor2, 0.);
                   const Result rr = accept_roundtrip(p, b, nb2, false, "two points, blocks");
@@ -712,8 +712,11 @@ check_blocks(const ProjDataInfoGenericNoArcCorr& p, const json& c)
                 {
                   const Bin nb2 = p.get_bin(lor2, 0.);
                   VF_TRY(accept_roundtrip(p, b, nb2, false, "two points"));
-                  const Bin nb = p.get_bin(lor, 0.);
-                  VF_TRY(accept_roundtrip(p, b, nb, false, "sinogram coordinates"));
+                  if (exclusions_on("F4a")) // (development aid: C12_NO_EXCLUDE=F4a checks the two-point representation only)
+                    {
+                      const Bin nb = p.get_bin(lor, 0.);
+                      VF_TRY(accept_roundtrip(p, b, nb, false, "sinogram coordinates"));
+                    }
                 }
               // behind the exclusion: what the function does support -- an LOR through the exact crystal centres of the bin's
               // detector pair must come back as exactly this bin (uncompressed data: one pair per bin)
